@@ -51,7 +51,6 @@ import (
 )
 
 const (
-	v15SigCoalesced = "settings-ack-coalesced"
 	v15SigConn400   = "connspecific-answered-400"
 )
 
@@ -694,14 +693,10 @@ func (c *v15Conn) endOfStep(line string) {
 		c.pings = nil
 	}
 	if c.nset > 0 {
-		switch {
-		case c.nack == c.nset:
+		if c.nack == c.nset {
 			c.o.Stat("ev:settings-acked")
-		case c.nack >= 1 && c.nack < c.nset:
-			c.o.Stat("ev:settings-ack-coalesced")
-			c.o.Fail(v15SigCoalesced, fmt.Sprintf("%q: %d SETTINGS frames were acknowledged by %d SETTINGS ACK (needToSendSettingsAck is a flag, not a counter)", line, c.nset, c.nack))
-		default:
-			c.o.Fail("", fmt.Sprintf("%q: %d SETTINGS frames, %d acknowledged at quiescence", line, c.nset, c.nack))
+		} else {
+			c.o.Fail("", fmt.Sprintf("%q: %d SETTINGS frames, %d SETTINGS ACK at quiescence (one ACK is due per frame)", line, c.nset, c.nack))
 		}
 		c.nset, c.nack = 0, 0
 	}
